@@ -378,6 +378,7 @@ def plan_for(tier):
     q = tier == "quick"
     b = 2 if q else 3
     plan = []
+    grid = []
     PRINT = r"print\(data, file=self\._file"
     # concurrent: two writers + reader process; every assignment over ids {0,1,2} is covered by a few sharp shapes
     plan.append((Cfg("K1[w0:0|w1:1|R:0,1,0,1]", [[0], [1]], [0, 1, 0, 1], required=[PRINT]), b, 0, None))
@@ -396,7 +397,7 @@ def plan_for(tier):
                     continue
                 k += 1
                 reads = sorted(set(a) | set(c))
-                plan.append((Cfg("KG%d[w0:%s|w1:%s]" % (k, a, c), [list(a), list(c)], reads * 2, family="conc-grid",
+                grid.append((Cfg("KG%d[w0:%s|w1:%s]" % (k, a, c), [list(a), list(c)], reads * 2, family="conc-grid",
                                  presize=3 if k % 2 else None), 2, 0, 120000))
     # sequential: arrival orders over ids {0..3} with gaps / duplicates / pre-sized index, one or two processes in turn
     k = 0
@@ -412,19 +413,20 @@ def plan_for(tier):
                 k += 1
                 if q and n == 3 and k % 3:
                     continue
-                plan.append((Cfg("S%d%s" % (k, ws), ws, sorted(set(order)) + [5], presize=(4 if k % 4 == 0 else None),
+                grid.append((Cfg("S%d%s" % (k, ws), ws, sorted(set(order)) + [5], presize=(4 if k % 4 == 0 else None),
                                  sequential=True, after_flush=([1, 0] if k % 5 == 0 else [])), 0, 0, None))
     plan.append((Cfg("Sdup[[0,1,0],[1,2]]", [[0, 1, 0], [1, 2]], [0, 1, 2], sequential=True, after_flush=[0]), 0, 0, None))
     plan.append((Cfg("Sflush[[2],[0]]", [[2], [0]], [0, 2], sequential=True, after_flush=[0, 2, 1]), 0, 0, None))
     plan.append((Cfg("Spar[P:0|[1]]", [[1]], [0, 1], sequential=True, parent_ids=[0], after_flush=[0]), 0, 0, None))
     plan.append((Cfg("Spar[P:1,0|[]]", [], [0, 1], sequential=True, parent_ids=[1, 0], after_flush=[1]), 0, 0, None))
     plan.append((Cfg("Kpar[P:0|w0:1|R]", [[1]], [0, 1, 0], parent_ids=[0], after_flush=[0]), b, 0, None))
-    return plan
+    return plan, grid
 
 
 def run(report, tier):
     try:
-        run_pool_check(report, "C14", plan_for(tier), kit=KIT, what="storage.py")
+        plan, grid = plan_for(tier)
+        run_pool_check(report, "C14", plan, kit=KIT, what="storage.py", grid=grid or None)
     finally:
         for d in glob.glob("/dev/shm/verif-c14-%s-*" % RUNID):
             shutil.rmtree(d, ignore_errors=True)
